@@ -33,6 +33,16 @@ def depth1():
         for ta in T8:
             for tb in T8:
                 specs.append(prog.ProgSpec([(tc, "c", "input"), (ta, "a", "input"), (tb, "b", "input"), ("int64_t", "r", "local")], "r = c ? a : b;", ["r"], tag=("cond", tc, ta, tb)))
+    # a unary operator applied to a unary operator (!!a is 0 or 1 of type int, ~~a is the promoted a, ...), alone and as an operand
+    for u1 in UNOPS:
+        for u2 in UNOPS:
+            uu = "%s%s%s" % (u1, " " if u1 == u2 == "-" else "", u2)
+            for ta in T8:
+                specs.append(prog.ProgSpec([(ta, "a", "input"), ("int64_t", "r", "local")], "r = %sa;" % uu, ["r"], tag=("unun", u1, u2, ta)))
+                specs.append(prog.ProgSpec([(ta, "a", "input"), ("int64_t", "r", "local")], "r = %s%s%sa;" % (u1, " " if u1 == "-" else "", uu), ["r"], tag=("ununun", u1, u2, ta)))
+                for tb in ("int8_t", "uint32_t", "int64_t"):
+                    for o in ("+", "<", ">>", "=="):
+                        specs.append(prog.ProgSpec([(ta, "a", "input"), (tb, "b", role(o, "r")), ("int64_t", "r", "local")], "r = %sa %s b;" % (uu, o), ["r"], tag=("unun-of", u1, u2, o, ta, tb)))
     return specs
 
 
